@@ -20,8 +20,10 @@ import (
 //
 // selftest mutants [--only name]
 //
-//	every patch under /verif/mutants is applied to /repo (git apply), the owning check must report a
-//	VIOLATION within the quick budget, and the patch is reverted (git checkout) whatever happens.
+//	every patch under /verif/mutants is applied to a scratch worktree of /repo HEAD under /tmp
+//	(removed afterwards); the owning check runs against it through a temporary -modfile
+//	(VERIF_REPO) and must report a VIOLATION within the quick budget; negative controls must stay
+//	silent. /repo itself is never touched, so several mutants run in parallel.
 func selftest(args []string) {
 	if len(args) == 0 {
 		die(2, "selftest determinism|mutants")
@@ -157,65 +159,98 @@ func selftestDeterminism(args []string) {
 
 func selftestMutants(args []string) {
 	only := ""
+	par := 3
 	for i := 0; i < len(args); i++ {
-		if args[i] == "--only" {
+		switch args[i] {
+		case "--only":
 			i++
 			only = args[i]
+		case "--par":
+			i++
+			par, _ = strconv.Atoi(args[i])
 		}
 	}
 	dir := filepath.Join(verifDir, "mutants")
 	ents, _ := os.ReadDir(dir)
 	self, _ := os.Executable()
-	fail := 0
-	total := 0
+	var mu sync.Mutex
+	fail, total := 0, 0
+	var lines []string
+	sem := make(chan struct{}, par)
+	var wg sync.WaitGroup
 	for _, e := range ents {
 		if !strings.HasSuffix(e.Name(), ".diff") || (only != "" && !strings.Contains(e.Name(), only)) {
 			continue
 		}
-		// file name: <PROP>[+PROP]-<name>.diff ; prefix "neg-" marks a negative control (no check may fire)
-		name := strings.TrimSuffix(e.Name(), ".diff")
-		neg := strings.HasPrefix(name, "neg-")
-		propsPart := strings.SplitN(strings.TrimPrefix(name, "neg-"), "-", 2)[0]
 		total++
-		if out, err := exec.Command("git", "-C", "/repo", "apply", "--check", filepath.Join(dir, e.Name())).CombinedOutput(); err != nil {
-			fmt.Printf("MUTANT %-40s DOES NOT APPLY: %s\n", name, strings.TrimSpace(string(out)))
-			fail++
-			continue
-		}
-		exec.Command("git", "-C", "/repo", "apply", filepath.Join(dir, e.Name())).Run()
-		caught := ""
-		alarms := ""
-		for _, p := range strings.Split(propsPart, "+") {
-			cmd := exec.Command(self, p, "--tier", "quick")
-			cmd.Env = append(os.Environ(), "VERIF_SEED=1")
-			out, _ := cmd.CombinedOutput()
-			code := cmd.ProcessState.ExitCode()
-			if strings.Contains(string(out), "VIOLATION property="+p) && code == 1 {
-				caught += p + " "
-				for _, l := range strings.Split(string(out), "\n") {
-					if strings.HasPrefix(l, "violation class") {
-						alarms += "    " + l + "\n"
-						break
-					}
+		wg.Add(1)
+		go func(file string) {
+			defer wg.Done()
+			sem <- struct{}{}
+			defer func() { <-sem }()
+			// file name: <PROP>[+PROP]-<name>.diff ; prefix "neg-" marks a negative control (no check may fire)
+			name := strings.TrimSuffix(file, ".diff")
+			neg := strings.HasPrefix(name, "neg-")
+			propsPart := strings.SplitN(strings.TrimPrefix(name, "neg-"), "-", 2)[0]
+			wt, _ := os.MkdirTemp("", "mut-")
+			os.Remove(wt)
+			defer func() {
+				exec.Command("git", "-C", "/repo", "worktree", "remove", "--force", wt).Run()
+				os.RemoveAll(wt)
+			}()
+			report := func(s string, bad bool) {
+				mu.Lock()
+				lines = append(lines, s)
+				fmt.Print(s)
+				if bad {
+					fail++
 				}
-			} else if code == 2 {
-				alarms += fmt.Sprintf("    %s: exit 2 (build/harness)\n", p)
+				mu.Unlock()
 			}
-		}
-		exec.Command("git", "-C", "/repo", "checkout", "--", ".").Run()
-		switch {
-		case neg && caught == "":
-			fmt.Printf("CONTROL %-40s silent (as required)\n", name)
-		case neg:
-			fmt.Printf("CONTROL %-40s FALSE ALARM by %s\n%s", name, caught, alarms)
-			fail++
-		case caught != "":
-			fmt.Printf("MUTANT  %-40s caught by %s\n%s", name, caught, alarms)
-		default:
-			fmt.Printf("MUTANT  %-40s MISSED\n%s", name, alarms)
-			fail++
-		}
+			if out, err := exec.Command("git", "-C", "/repo", "worktree", "add", "--detach", "-q", wt, "HEAD").CombinedOutput(); err != nil {
+				report(fmt.Sprintf("MUTANT  %-46s WORKTREE FAILED: %s\n", name, out), true)
+				return
+			}
+			if out, err := exec.Command("git", "-C", wt, "apply", filepath.Join(dir, file)).CombinedOutput(); err != nil {
+				report(fmt.Sprintf("MUTANT  %-46s DOES NOT APPLY: %s\n", name, strings.TrimSpace(string(out))), true)
+				return
+			}
+			evd, _ := os.MkdirTemp("", "mut-ev-")
+			defer os.RemoveAll(evd)
+			caught, alarms := "", ""
+			for _, p := range strings.Split(propsPart, "+") {
+				cmd := exec.Command(self, p, "--tier", "quick")
+				cmd.Env = append(os.Environ(), "VERIF_SEED=1", "VERIF_REPO="+wt, "VERIF_EVIDENCE_DIR="+evd)
+				out, _ := cmd.CombinedOutput()
+				code := cmd.ProcessState.ExitCode()
+				if strings.Contains(string(out), "VIOLATION property="+p) && code == 1 {
+					caught += p + " "
+					for _, l := range strings.Split(string(out), "\n") {
+						if strings.HasPrefix(l, "violation class") {
+							if len(l) > 170 {
+								l = l[:170]
+							}
+							alarms += "    " + l + "\n"
+							break
+						}
+					}
+				} else if code == 2 {
+					alarms += fmt.Sprintf("    %s: exit 2 (build/harness)\n", p)
+				}
+			}
+			switch {
+			case neg && caught == "" && !strings.Contains(alarms, "exit 2"):
+				report(fmt.Sprintf("CONTROL %-46s silent (as required)\n", name), false)
+			case neg:
+				report(fmt.Sprintf("CONTROL %-46s FALSE ALARM by %s\n%s", name, caught, alarms), true)
+			case caught != "":
+				report(fmt.Sprintf("MUTANT  %-46s caught by %s\n%s", name, caught, alarms), false)
+			default:
+				report(fmt.Sprintf("MUTANT  %-46s MISSED\n%s", name, alarms), true)
+			}
+		}(e.Name())
 	}
+	wg.Wait()
 	fmt.Printf("selftest mutants: %d patches, %d problems\n", total, fail)
 	if fail > 0 {
 		os.Exit(1)
